@@ -1,4 +1,5 @@
 import Rangers.Model.Bls14Verify
+import Rangers.Model.Bls14Hash
 import Rangers.Proofs.Bls14Bytes
 import Rangers.Proofs.Bls14Field
 import Rangers.Proofs.Bls14Model
@@ -153,6 +154,34 @@ theorem hashToPoint_onCurve (d : Bytes) (q : Pt) (h : hashToPoint d = some q) :
     · exact ih _ h
 
 example : (hashLoop 4 1).isSome = true := by decide +kernel
+
+/-- The same for the end-to-end `hashToG1(m)` (SHA-256 inside the model): whatever message is
+    hashed, a returned point is valid — so `Sign` never starts from an off-curve point. -/
+theorem hashToG1_onCurve (m : Bytes) (q : Pt) (h : hashToG1 m = some q) :
+    q.onCurve = true ∧ q.reduced = true :=
+  hashToPoint_onCurve _ q h
+
+/-- The digest is always 32 bytes (eight 32-bit words), so it is read as a 256-bit number. -/
+theorem sha256_length (m : Bytes) : (Sha.sha256 m).length = 32 := by
+  unfold Sha.sha256
+  simp only
+  generalize Sha.chunks16 _ _ = cs
+  have hsz : ∀ (cs : List (Array UInt32)) (h : Array UInt32), h.size = 8 →
+      (cs.foldl Sha.compress h).size = 8 := by
+    intro cs
+    induction cs with
+    | nil => intro h hh; simpa using hh
+    | cons c cs ih =>
+      intro h hh
+      rw [List.foldl_cons]
+      apply ih
+      simp [Sha.compress]
+  have h8 := hsz cs #[0x6a09e667, 0xbb67ae85, 0x3c6ef372, 0xa54ff53a, 0x510e527f, 0x9b05688c, 0x1f83d9ab, 0x5be0cd19] rfl
+  generalize List.foldl Sha.compress _ cs = h at h8
+  obtain ⟨l⟩ := h
+  simp only [List.size_toArray] at h8
+  match l, h8 with
+  | [a, b, c, d, e, f, g, i], _ => simp [Sha.wordBytes]
 
 /-! ## negation (the `−σ` of the quantifier) -/
 
